@@ -285,6 +285,8 @@ theorem applyFx_anyValid (fx : Fx) (st : ScanSt) : (applyFx fx st).anyValid = st
   cases fx <;> simp [applyFx] ; split <;> rfl
 theorem applyFx_rct (fx : Fx) (st : ScanSt) : (applyFx fx st).rowCountTotal = st.rowCountTotal := by
   cases fx <;> simp [applyFx] ; split <;> rfl
+theorem applyFx_endMark (fx : Fx) (st : ScanSt) : (applyFx fx st).endMark = st.endMark := by
+  cases fx <;> simp [applyFx] ; split <;> rfl
 
 theorem visitStep_cnt_gen (ord row fx st) :
     (visitStep ord row fx st).cnt = cntBump (cntInc st.cnt ord row) ord row fx := by
@@ -317,6 +319,8 @@ theorem visitStep_anyValid (ord row fx st) : (visitStep ord row fx st).anyValid 
   simp [visitStep, applyFx_anyValid]
 theorem visitStep_rct (ord row fx st) : (visitStep ord row fx st).rowCountTotal = st.rowCountTotal + 1 := by
   simp [visitStep, applyFx_rct]
+theorem visitStep_endMark (ord row fx st) : (visitStep ord row fx st).endMark = st.endMark := by
+  simp [visitStep, applyFx_endMark]
 
 def posOf (r : RowRec) : Nat × Nat := (r.ord, r.row)
 
@@ -379,6 +383,7 @@ structure RowsDone (ord row : Nat) (fxs : List Fx) (st st' : ScanSt) : Prop wher
   trace : st'.trace.map posOf = (rowSeq ord row fxs.length).reverse ++ st.trace.map posOf
   recs : st'.trace = (recSeq ord row fxs st.speed st.bpm st.rowStart).reverse ++ st.trace
   rct : st'.rowCountTotal = st.rowCountTotal + fxs.length
+  endMark : st'.endMark = st.endMark
   valid : fxs ≠ [] → st'.anyValid = true ∧ st'.osv = 0
   same : fxs = [] → st' = st
 
@@ -451,6 +456,7 @@ theorem scanRows_nojump_app (ord : Nat) (rest : List Fx) : ∀ (fxs : List Fx) (
     · rw [hd.recs, visitStep_trace_full _ _ _ _ hfx0.2, hsp', hbp', hrs']
       simp [recSeq]
     · rw [hd.rct, visitStep_rct, List.length_cons]; omega
+    · rw [hd.endMark, visitStep_endMark]
     · intro _
       by_cases hr : tl = []
       · subst hr
